@@ -139,6 +139,8 @@ class SubCheck:
     explore: Optional[Callable] = None
     replay: Optional[Callable] = None   # (case, res): re-run one stored case/history without the explorer
     prepare: Optional[Callable] = None  # (tier, inst): run once in the parent before the workers are forked (they inherit its module state)
+    requires: tuple = ()                # 'module:attribute' seams that are NOT public API: if one is gone (renamed in a refactoring) the
+                                        # sub-check is skipped with a note instead of failing; the property keeps its public-seam sub-check
     tiers: tuple = ("quick", "thorough")
     min_nontrivial: int = 2
     min_outcomes: int = 2
@@ -226,6 +228,21 @@ def run_subcheck(modname: str, subname: str, tier: str, seed: int) -> Result:
     if total.nt_keys is not None:
         total.nontrivial = len(total.nt_keys)
     return total
+
+
+def _missing_seams(requires) -> list:
+    import importlib
+
+    out = []
+    for spec in requires:
+        modname, _, attr = spec.partition(":")
+        try:
+            obj = importlib.import_module(modname)
+            for part in attr.split("."):
+                obj = getattr(obj, part)
+        except (ImportError, AttributeError):
+            out.append(spec)
+    return out
 
 
 # --------------------------------------------------------------------------- #
@@ -333,6 +350,13 @@ def run_property(modname: str, tier: str, seed: int, only: Optional[str] = None)
         if only and name != only:
             continue
         if tier not in sub.tiers:
+            continue
+        missing = _missing_seams(sub.requires)
+        if missing:
+            per_sub[name] = {"describe": sub.describe, "rule": sub.rule, "bound": None, "states": 0, "transitions": 0, "distinct_nontrivial": 0,
+                             "distinct_outcomes": 0, "violations": 0, "capped": False, "stats": {}, "wall_s": 0.0,
+                             "skipped": "private seam(s) not present in this tree: " + ", ".join(missing)}
+            sys.stderr.write(f"[{pid}/{name}] skipped: private seam(s) {missing} not present (the public-seam sub-checks still decide the property)\n")
             continue
         ts = time.time()
         res = run_subcheck(modname, name, tier, seed)
@@ -455,7 +479,10 @@ def write_evidence(mod, pid, tier, seed, total: Result, per_sub, wall, known_hit
         schema_path = os.path.join(VERIF, "mc", "EVIDENCE.schema.json")
         if os.path.exists(schema_path):
             with open(schema_path) as fh:
-                jsonschema.validate(ev, json.load(fh))
+                try:
+                    jsonschema.validate(ev, json.load(fh))
+                except jsonschema.ValidationError as exc:       # e.g. --only on a sub-check whose private seam is absent: nothing ran
+                    sys.stderr.write(f"[{pid}] evidence file does not validate: {exc.message}\n")
     except ImportError:
         pass
 
